@@ -46,7 +46,82 @@ func (m *evalModel) evalFuncs() []*ssa.Function {
 		out = append(out, h)
 		out = append(out, allAnon(h)...)
 	}
-	return out
+	seen := map[*ssa.Function]bool{}
+	uniq := out[:0]
+	for _, f := range out {
+		if !seen[f] {
+			seen[f] = true
+			uniq = append(uniq, f)
+		}
+	}
+	return uniq
+}
+
+// thinWrapper: an evaluation helper that does nothing but make one evaluating call with its own parameters
+// (or the variables it captures) as arguments and hand back that call's results: `evalIn := func(form MalType)
+// (MalType, error) { return EVAL(ctx, form, env) }`. A call of it is the evaluating call it contains, made at
+// the call site with the arguments put in for the parameters.
+func (m *evalModel) thinWrapper(h *ssa.Function) *ssa.Call {
+	if _, isHelper := m.helperSites[h]; !isHelper || len(h.Blocks) == 0 || len(h.Blocks) > 2 {
+		return nil
+	}
+	if v, ok := m.thin[h]; ok {
+		return v
+	}
+	if m.thin == nil {
+		m.thin = map[*ssa.Function]*ssa.Call{}
+	}
+	m.thin[h] = nil
+	var inner *ssa.Call
+	for _, b := range h.Blocks {
+		for _, in := range b.Instrs {
+			switch x := in.(type) {
+			case *ssa.Call:
+				switch x.Call.StaticCallee() {
+				case m.EVAL, m.evalAst, m.doFn, m.macroexpand:
+					if inner != nil {
+						return nil
+					}
+					inner = x
+				default:
+					return nil // anything else it calls makes it more than a wrapper
+				}
+			case *ssa.Store, *ssa.MapUpdate, *ssa.Defer, *ssa.Go, *ssa.Send, *ssa.MakeClosure:
+				return nil
+			}
+		}
+	}
+	if inner == nil {
+		return nil
+	}
+	for _, a := range inner.Call.Args {
+		switch x := a.(type) {
+		case *ssa.Parameter, *ssa.Const:
+		case *ssa.UnOp:
+			if _, isFree := x.X.(*ssa.FreeVar); !isFree || x.Op != token.MUL {
+				return nil
+			}
+		default:
+			return nil
+		}
+	}
+	for _, b := range h.Blocks {
+		ret, ok := b.Instrs[len(b.Instrs)-1].(*ssa.Return)
+		if !ok || b == h.Recover {
+			continue
+		}
+		if len(ret.Results) == 1 && ret.Results[0] == ssa.Value(inner) {
+			continue
+		}
+		for i, rv := range ret.Results {
+			ex, ok := rv.(*ssa.Extract)
+			if !ok || ex.Tuple != ssa.Value(inner) || ex.Index != i {
+				return nil
+			}
+		}
+	}
+	m.thin[h] = inner
+	return inner
 }
 
 // evalCalls: calls, inside the evaluator functions, of functions that evaluate (or expand) a form.
@@ -62,6 +137,9 @@ type evalCall struct {
 func (m *evalModel) evalCalls() []evalCall {
 	var out []evalCall
 	for _, fn := range m.evalFuncs() {
+		if m.thinWrapper(fn) != nil {
+			continue // represented by its call sites
+		}
 		for _, b := range fn.Blocks {
 			for _, in := range b.Instrs {
 				c, ok := in.(*ssa.Call)
@@ -69,6 +147,22 @@ func (m *evalModel) evalCalls() []evalCall {
 					continue
 				}
 				callee := c.Call.StaticCallee()
+				args := c.Call.Args
+				if inner := m.thinWrapper(callee); inner != nil {
+					// the call the wrapper makes, with this call's arguments put in for the wrapper's parameters
+					args = nil
+					for _, a := range inner.Call.Args {
+						if p, isP := a.(*ssa.Parameter); isP {
+							for i, q := range callee.Params {
+								if q == p && i < len(c.Call.Args) {
+									a = c.Call.Args[i]
+								}
+							}
+						}
+						args = append(args, a)
+					}
+					callee = inner.Call.StaticCallee()
+				}
 				switch callee {
 				case m.EVAL, m.evalAst, m.doFn, m.macroexpand:
 				default:
@@ -78,11 +172,11 @@ func (m *evalModel) evalCalls() []evalCall {
 				for i, p := range callee.Params {
 					switch {
 					case isContext(p.Type()):
-						ec.ctx = c.Call.Args[i]
+						ec.ctx = args[i]
 					case isMalType(p.Type()) && ec.ast == nil:
-						ec.ast = c.Call.Args[i]
+						ec.ast = args[i]
 					case strings.HasSuffix(p.Type().String(), "types.EnvType"):
-						ec.env = c.Call.Args[i]
+						ec.env = args[i]
 					}
 				}
 				out = append(out, ec)
@@ -237,6 +331,8 @@ func ruleTail(m *evalModel, r *Report, rule string) {
 			case callee == m.macroexpand || callee == m.quasiquote:
 				n++
 				r.ok(rule, m.EVAL, construct, ret.Pos(), "expansion returned unevaluated")
+			case callee != nil && callee.Parent() == m.EVAL && !m.evalRelevant(callee, map[*ssa.Function]bool{}):
+				// a function literal that evaluates nothing (it builds an error, say): no tail position involved
 			case callee != nil && callee.Parent() == m.EVAL:
 				n++
 				if region == "try" {
@@ -654,6 +750,11 @@ func checkC01(w *World, r *Report) {
 			return true
 		}
 		return false
+	})
+	// "an error exactly where the definition prescribes one": let, apply and the sequence builtins decide what
+	// is a sequence through one accessor
+	r.include("C01.builtin-domain-", "C13.", "the binding list of let and the sequence arguments of apply, map, cons, concat are lists or vectors: the accessor they are recognised by fails for everything else", checkC13, func(rule string) bool {
+		return rule == "C13.seq-accessor"
 	})
 	applyArgsRule(w, r, e, "C01.apply-args")
 	r.rule("C01.no-mutation", "evaluation never writes into a form or into a value it was given: the evaluator, the binder and the builtins write only into storage allocated in the same activation, and storage handed to a call inside a loop is not written again on the next iteration (a literal evaluated twice, or the rest list of an earlier call, would otherwise change; shared with C02.write)")
